@@ -59,11 +59,41 @@ pub fn check_mono(c: &MonoCase, obs: &mut Obs) -> Result<(), String> {
     let tags: HashSet<String> = c.base.tags.iter().cloned().collect();
     let parsed = parse_network(&c.base.rules);
     let active = active_rules(&parsed);
-    for r in &c.base.reqs {
+    // "adding a rule" taken literally: a live Blocker that received the base list one rule at a
+    // time, observed before and after Blocker::add_filter(extra)
+    let store = adblock::resources::ResourceStorage::from_resources(res.iter().cloned());
+    let mut refused = vec![];
+    let mut live = incremental_blocker(&c.base.rules, std_opts(), &c.base.tags, &mut refused);
+    let mut live_before: Vec<Option<adblock::blocker::BlockerResult>> = vec![];
+    if let Some(b) = &mut live {
+        for r in &c.base.reqs {
+            live_before.push(mk_request(r).map(|q| b.check(&q, &store)));
+        }
+        if let Some(x) = xp.first() {
+            let _ = b.add_filter(x.f.clone());
+        }
+        obs.label("live-add_filter");
+    }
+    for (ri, r) in c.base.reqs.iter().enumerate() {
         let Some(req) = mk_request(r) else { continue };
         obs.inner_evals += 1;
         let b0 = e0.check_network_request(&req);
         let b1 = e1.check_network_request(&req);
+        if let (Some(b), Some(Some(l0))) = (&live, live_before.get(ri)) {
+            let l1 = b.check(&req, &store);
+            if is_exc && l1.matched && !l0.matched {
+                return Err(format!("Blocker::add_filter of exception {:?} turned allowed request {:?} into blocked", c.extra, r));
+            }
+            if !is_exc && l0.matched && !l1.matched {
+                return Err(format!("Blocker::add_filter of blocking rule {:?} turned blocked request {:?} into allowed", c.extra, r));
+            }
+            if l0.matched != b0.matched || l0.important != b0.important || l0.exception.is_some() != b0.exception.is_some() {
+                return Err(format!(
+                    "request {:?}: a Blocker that received the rules one at a time says matched/important/exception = {}/{}/{}, the engine built from the list says {}/{}/{}",
+                    r, l0.matched, l0.important, l0.exception.is_some(), b0.matched, b0.important, b0.exception.is_some()
+                ));
+            }
+        }
         let x_hits = xp.iter().any(|p| rule_matches(&p.f, &req));
         if x_hits {
             obs.nontrivial = true;
@@ -429,7 +459,7 @@ pub fn decode_bad(t: &mut Tape) -> BadCase {
 }
 
 pub fn check(ctx: &mut Ctx) {
-    ctx.rule = "mono-big: a same-shape group of 2-800 rules (sizes around 16/32/64/128/256/512) with one rule taken out and added back as x, optimisation mostly on, one request per rule; mono: list L (1-24 rules, C01 generator, optimisation on/off) + extra rule x cut from one of the request URLs, inserted at a generated index; engines for L and L+x compared on 1-8 requests (x exception => blocked(L+x) implies blocked(L); x blocking => blocked(L) implies blocked(L+x)); blocked/important/exception also compared with the rule-by-rule spec. Non-trivial = x itself matches the request. bad: rule y + rule z that is either a re-spelling of y (aliases, option order, domain order) or y with one semantic atom changed (char moved across host/path boundary, domain<->~domain, char moved between modifier value and pattern, pattern char, option added/removed/negated, @@ toggled, anchor toggled); engines [y], [z], [y, z$badfilter], [z$badfilter], [] observed on ~20 probes per URL. Non-trivial = twin cancelling a rule that visibly does something, or near-miss that some probe distinguishes from y.".into();
+    ctx.rule = "mono-big: a same-shape group of 2-800 rules (sizes around 16/32/64/128/256/512) with one rule taken out and added back as x, optimisation mostly on, one request per rule; mono: list L (1-24 rules, C01 generator, optimisation on/off) + extra rule x cut from one of the request URLs, inserted at a generated index; engines for L and L+x compared on 1-8 requests (x exception => blocked(L+x) implies blocked(L); x blocking => blocked(L) implies blocked(L+x)); blocked/important/exception also compared with the rule-by-rule spec; when L has no badfilter rule the same two implications are checked on a live Blocker that received L one rule at a time, before and after Blocker::add_filter(x), and its answers for L must equal the engine's. Non-trivial = x itself matches the request. bad: rule y + rule z that is either a re-spelling of y (aliases, option order, domain order) or y with one semantic atom changed (char moved across host/path boundary, domain<->~domain, char moved between modifier value and pattern, pattern char, option added/removed/negated, @@ toggled, anchor toggled); engines [y], [z], [y, z$badfilter], [z$badfilter], [] observed on ~20 probes per URL. Non-trivial = twin cancelling a rule that visibly does something, or near-miss that some probe distinguishes from y.".into();
     ctx.assumptions = vec![
         "tag differences between a rule and its badfilter twin are outside the domain (no tags generated for badfilter pairs)".into(),
         "a near-miss that no probe distinguishes from y is counted as undetermined, not checked".into(),
